@@ -210,7 +210,7 @@ fn main() {
     let out = Output {
         regret: info.regret(),
         player_one_utility: info.player_utility(PlayerNum::One) + sum,
-        player_two_utility: info.player_utility(PlayerNum::Two) - sum,
+        player_two_utility: info.player_utility(PlayerNum::Two) + sum,
         player_one_regret: info.player_regret(PlayerNum::One),
         player_two_regret: info.player_regret(PlayerNum::Two),
         player_one_strategy: one.into(),
